@@ -416,8 +416,16 @@ func typedContainerLoad(fn *ssa.Function, ta *ssa.TypeAssert) bool {
 		}
 		return false
 	})
-	g, ok := container.(*ssa.Global)
-	if !ok {
+	// the container: a package-level variable, or a field of a named struct (`s.cachedRules`: every `cachedRules` of that type)
+	var same func(v ssa.Value) bool
+	if g, ok := container.(*ssa.Global); ok {
+		same = func(v ssa.Value) bool { return v == ssa.Value(g) }
+	} else if cn, cf, _, ok := fieldOf(container); ok {
+		same = func(v ssa.Value) bool {
+			n2, f2, _, ok2 := fieldOf(v)
+			return ok2 && n2 == cn && f2 == cf
+		}
+	} else {
 		return false
 	}
 	want := ta.AssertedType
@@ -437,7 +445,7 @@ func typedContainerLoad(fn *ssa.Function, ta *ssa.TypeAssert) bool {
 			switch x := in.(type) {
 			case *ssa.Call:
 				c := x.Common()
-				if c.StaticCallee() == nil || c.StaticCallee().Pkg == nil || c.StaticCallee().Pkg.Pkg.Path() != "sync" || len(c.Args) == 0 || c.Args[0] != ssa.Value(g) {
+				if c.StaticCallee() == nil || c.StaticCallee().Pkg == nil || c.StaticCallee().Pkg.Pkg.Path() != "sync" || len(c.Args) == 0 || !same(c.Args[0]) {
 					return
 				}
 				switch c.StaticCallee().Name() {
@@ -458,7 +466,7 @@ func typedContainerLoad(fn *ssa.Function, ta *ssa.TypeAssert) bool {
 				}
 			case *ssa.Store:
 				// sync.Pool{New: func() interface{} {...}}: the initialiser stores the New function into the variable
-				if fa, isFA := x.Addr.(*ssa.FieldAddr); isFA && fa.X == ssa.Value(g) {
+				if fa, isFA := x.Addr.(*ssa.FieldAddr); isFA && same(fa.X) {
 					if newFn, isFn := x.Val.(*ssa.Function); isFn {
 						allInstrs(newFn, func(y ssa.Instruction) {
 							if ret, isRet := y.(*ssa.Return); isRet && len(ret.Results) == 1 {
